@@ -93,7 +93,8 @@ func (m *MessageBuffer) Send(msg []byte) error {
 		return ErrClosed
 	}
 
-	l := len(msg)
+	// [maxSize] limits the encoded batch, so account for the per-message framing
+	l := batchedMessageSize(msg)
 	if l > m.maxSize {
 		return ErrMessageTooLarge
 	}
